@@ -74,7 +74,7 @@ Theorem C18_failed_fetch_leaves_others_alone : forall r l, fetch_succeeds l = fa
 Proof. exact overlap_failed_fetch. Qed.
 Print Assumptions C18_failed_fetch_leaves_others_alone.
 Theorem C18_oracle_sound_overlap : forall r l b_resp sets a_scan a_nonempty,
-  (0 < r)%N -> (forall v, l = ReachOk v -> (r <= v)%N) ->
+  (0 < r)%N ->
   c18_check (OverlapCase r l b_resp sets a_scan a_nonempty) = true ->
   c18_oracle (OverlapCase r l b_resp sets a_scan a_nonempty) = None.
 Proof. exact c18_overlap_sound. Qed.
